@@ -507,6 +507,146 @@ def pipe_relay(world, scn, obs):
     return ObsPipe(['deliver', '-f', '{sender}', '-d', '{recipient}'])
 
 
+def smtp_relay(world, scn, obs):
+    """real StaticSmtpRelay / StaticLmtpRelay (pool, SmtpRelayClient, Client)
+    against the scripted SMTP server; the outcome table is translated into
+    per-message server scripts.  An observing subclass records attempts; the
+    ground truth is what the server accepted."""
+    from harness import relay as hrelay
+    from harness.smtppeer import ScriptedServer, Listener
+    from sim.tls import SimTLSContext
+    from sim import net
+    hrelay.install_seams()
+    lmtp = scn['relay'] == 'lmtp'
+    tx = {}
+    for k, lst in (scn.get('outcomes') or {}).items():
+        tag = 'm%s' % k
+        sc = {'mail': [], 'data': [], 'eod': [], 'rcpt_by_addr': {}}
+        for spec in lst:
+            t = spec['t']
+            mail, data, eod = {}, {}, {}
+            if spec.get('lat'):
+                data = {'delay': spec['lat']}
+            if t == 'temp':
+                eod = {'code': '451'}
+            elif t == 'perm':
+                eod = {'code': '554'}
+            elif t == 'other':
+                data = {'act': 'disconnect'}
+            sc['mail'].append(mail)
+            sc['data'].append(data)
+            sc['eod'].append(eod)
+        # per-recipient verdicts by occurrence of the address
+        for spec in lst:
+            if spec['t'] in ('map', 'seq'):
+                for r, (vd, var) in (spec.get('r') or {}).items():
+                    sc['rcpt_by_addr'].setdefault(r, []).append(
+                        {'temp': {'code': '450'}, 'perm': {'code': '550'}}.get(
+                            vd, {}))
+            else:
+                for r in set(x for sp in lst for x in (sp.get('r') or {})):
+                    sc['rcpt_by_addr'].setdefault(r, []).append({})
+        tx[tag] = sc
+    servers = []
+
+    def make_server(kk):
+        srv = ScriptedServer(world, {}, lmtp=lmtp,
+                             extensions=['8BITMIME', 'PIPELINING']
+                             if scn.get('relay_pipelining', True)
+                             else ['8BITMIME'], tx_scripts=tx,
+                             label='mx%d' % kk)
+        servers.append(srv)
+        return srv
+    listener = Listener(world, make_server, label='mx',
+                        client_opts={'latency': net.LAT_SMALL},
+                        server_opts={'latency': net.LAT_SMALL})
+    if lmtp:
+        from slimta.relay.smtp.static import StaticLmtpRelay as Base
+    else:
+        from slimta.relay.smtp.static import StaticSmtpRelay as Base
+    state = {'count': {}, 'bounces': 0}
+
+    class ObsSmtp(Base):
+        def attempt(self, envelope, attempts):
+            w = world
+            k = marker_of(envelope)
+            if k is None:
+                mk, n = ('b', state['bounces']), state['bounces']
+                state['bounces'] += 1
+                shape = 'none'
+            else:
+                n = state['count'].get(k, 0)
+                state['count'][k] = n + 1
+                lst = (scn.get('outcomes') or {}).get(str(k)) or []
+                shape = lst[n]['t'] if n < len(lst) else 'none'
+                mk = k
+            try:
+                hd, bd = envelope.flatten()
+                content = hashlib.sha1(hd + bd).hexdigest()
+            except Exception as e:
+                content = 'unflattenable:%s' % type(e).__name__
+            rec = {'k': mk, 'n': n, 'attempts_arg': attempts,
+                   'rcpts': list(envelope.recipients), 'content': content,
+                   't0': w.loop._now, 't1': None, 'truth': {},
+                   'start_seq': w.counter('attseq'), 'end_seq': None,
+                   'shape': 'map' if shape in ('map', 'seq') else shape,
+                   'sender': envelope.sender, 'replies': {}}
+            obs['attempts'].append(rec)
+            w.log('ATT', str(mk), n, 'start', len(rec['rcpts']))
+            before = sum(len(s.conn.transactions) for s in servers
+                         if s.conn is not None)
+            try:
+                return Base.attempt(self, envelope, attempts)
+            finally:
+                # ground truth from the server side: the transaction(s) of
+                # this message seen since the attempt began
+                trs = []
+                for srv in servers:
+                    if srv.conn is None:
+                        continue
+                    for tr in srv.conn.transactions:
+                        if tr.get('tag') == ('m%s' % k if k is not None
+                                             else None) and \
+                                tr['t'] >= rec['t0'] and not tr.get('_seen'):
+                            tr['_seen'] = True
+                            trs.append(tr)
+                acc = {}
+                for tr in trs:
+                    codes = tr.get('eod') or []
+                    for i, r in enumerate(tr['rcpts']):
+                        c = codes[i] if lmtp and i < len(codes) else (
+                            codes[0] if codes else None)
+                        acc[r] = c
+                    for r, code in tr['all_rcpts']:
+                        if code[0] != '2':
+                            acc[r] = code
+                for r in rec['rcpts']:
+                    c = acc.get(r)
+                    if c is not None and c[0] == '2':
+                        rec['truth'][r] = 'ok'
+                    elif c is not None and c[0] == '5':
+                        rec['truth'][r] = 'perm'
+                        rec['replies'][r] = (c, None)
+                    else:
+                        rec['truth'][r] = 'temp'
+                        rec['replies'][r] = (c or '4xx', None)
+                vals = set(rec['truth'].values())
+                if rec['shape'] != 'map':
+                    rec['shape'] = 'none' if vals == {'ok'} else (
+                        'perm' if vals == {'perm'} else (
+                            'temp' if vals == {'temp'} else 'map'))
+                rec['t1'] = w.loop._now
+                rec['end_seq'] = w.counter('attseq')
+                w.log('ATT', str(mk), n, 'end')
+
+    return ObsSmtp('mx.sim', 25 if not lmtp else 24,
+                   pool_size=scn.get('relay_pool_size'),
+                   socket_creator=listener.connect, ehlo_as='relay.sim',
+                   context=SimTLSContext(), connect_timeout=10.0,
+                   command_timeout=20.0, data_timeout=30.0,
+                   idle_timeout=scn.get('relay_idle'))
+
+
 def obs_queue_class():
     from slimta.queue import Queue
 
@@ -548,7 +688,10 @@ def build(world, scn, obs, fs=None, counts=None, bounces=0):
     sub = Substrate(world, scn, fs=fs)
     OS = observed_store_class()
     store = OS(sub.new_storage(), obs, world, 's')
-    if scn.get('relay') in ('pipe', 'pipe1'):
+    if scn.get('relay') in ('smtp', 'lmtp'):
+        world.probe('relay:' + scn['relay'])
+        relay = smtp_relay(world, scn, obs)
+    elif scn.get('relay') in ('pipe', 'pipe1'):
         world.probe('relay:' + scn['relay'])
         relay = pipe_relay(world, scn, obs)
     else:
